@@ -413,7 +413,20 @@ class ExprMixin:
         if z3.is_int_value(x) and x.as_long() == 0:
             return y
         r = P.bor(x, y)
+        # one operand is a non-negative constant c: the other one either lies entirely above c's highest bit or
+        # entirely below c's lowest set bit -> the bits are disjoint and a | c == a + c (guarded, hence sound;
+        # the disjoint-or lemma is BV-certified in the self-test)
+        for a, cst in ((x, y), (y, x)):
+            if z3.is_int_value(cst) and cst.as_long() > 0:
+                c = cst.as_long()
+                hi = I(2 ** c.bit_length())
+                lo = I(2 ** tz(c))
+                st.pc.append(z3.Implies(z3.And(a >= 0, a % hi == 0), r == a + cst))
+                st.pc.append(z3.Implies(z3.And(a >= 0, a < lo), r == a + cst))
         ks = set()
+        if not z3.is_int_value(x) and not z3.is_int_value(y):
+            # both operands symbolic: guarded disjoint-or instances for the byte-level split points
+            ks.update((1, 2, 3, 4, 5, 6, 7, 8, 16))
         for h in hints:
             if 0 < h < 200:
                 ks.add(h)
